@@ -1,4 +1,5 @@
 import OpacusLean.Generated.AcctStep
+import OpacusLean.Generated.PreStep
 import OpacusLean.Lemmas.EngineEffect
 import Mathlib.Algebra.BigOperators.Group.List.Basic
 /-! # C05 — every noised step is accounted exactly once, with the parameters in force
@@ -298,5 +299,40 @@ theorem generated_step_accounts_once {A : Type} [DecidableEq A] (h : List (A × 
     simpa using this
 
 end generated
+
+/-! ## The tie to the source: the phase order of `pre_step` (both DP optimizers), `DPOptimizer.step` and the accountant hook's arguments,
+re-translated on every run (`Generated/PreStep.lean`) -/
+section prestep
+open Opacus.Generated.PreStep
+
+/-- the order of phases the engine model's `finishStep` implements: accumulate; test (and consume) the skip signal – a skipped step ends
+here, with no noise and no accounting (`finishStep_log`, third case); `add_noise` (`.noise`); `scale_grad`; the accountant hook (`.account`);
+clear the marker; hand over to the inner optimizer (`.inner`) -/
+def modelOrder : List Phase := [.clipAccumulate, .skipCheck, .addNoise, .scaleGrad, .hook, .clearSkipped, .proceed]
+
+/-- **generated_pre_step_eq_model**: `DPOptimizer.pre_step` (after its no-trainable-parameters shortcut) and
+`DPOptimizerFastGradientClipping.pre_step`, as written in the source under test, run their phases in the order of the model; the inner
+optimizer steps exactly when `pre_step()` returned true; and the accountant hook records `(σ live, q · k)` – the pair the model's
+`.account σ k` event stands for (`account_values`). -/
+theorem generated_pre_step_eq_model :
+    flat.filter (· ≠ .noParamsShortcut) = modelOrder ∧ ghost.filter (· ≠ .noParamsShortcut) = modelOrder ∧
+    (∀ p ∈ flat.dropWhile (· ≠ .clipAccumulate), p ≠ .noParamsShortcut) ∧
+    innerStepIffPreStep = true ∧
+    (∀ σ q k : ℝ, hookSigma σ q k = σ ∧ hookRate σ q k = q * k) := by
+  refine ⟨by decide, by decide, by decide, by decide, fun σ q k => ⟨?_, ?_⟩⟩
+  · unfold hookSigma; rfl
+  · unfold hookRate; first | rfl | exact mul_comm _ _
+
+/-- what the order buys, stated on the model the correspondence runs: a step whose skip signal is set leaves the log and the ledger untouched,
+a released step appends exactly noise → account → inner step -/
+theorem skipped_step_neither_noised_nor_accounted (c : Cfg) (s : St) (sm : Flagged) (gs' : List Flagged) (k : Nat)
+    (h : (finishStep c s sm gs' k).2 = .skipped) :
+    (finishStep c s sm gs' k).1.log = s.log ∧ (finishStep c s sm gs' k).1.hist = s.hist := by
+  rcases finishStep_log c s sm gs' k with ⟨h1, _⟩ | ⟨h1, _⟩ | ⟨_, _, h3, h4⟩
+  · rw [h] at h1; cases h1
+  · rw [h] at h1; cases h1
+  · exact ⟨h3, h4⟩
+
+end prestep
 
 end Opacus.C05
